@@ -29,9 +29,6 @@ theorem refutes {ops : List Op} (h : Differs ops) : ¬ C18_full := fun hf => h (
 theorem C18_counterexample_head_without_etag :
     Differs [.createBucket bka, .putObject bka kA [1] none {} none, .headObject bka kA] := by decide
 
-/-- fs:delete-missing-key-error -/
-theorem C18_counterexample_delete_missing_key : Differs [.createBucket bka, .deleteObject bka kA] := by decide
-
 /-- fs:missing-bucket-reported-as-missing-key -/
 theorem C18_counterexample_missing_bucket_code : Differs [.getObject bka kA none] := by decide
 
@@ -101,7 +98,7 @@ theorem C18_counterexample_complete_missing_part :
 
 (1d0f501 put_object / create_multipart_upload require the bucket; b01fec8 put_object without metadata removes the old
 metadata file; ca1e912 copy onto itself keeps the object; d6f1a3c head_object tells a missing key from a missing bucket;
-dbc4627 delete_bucket refuses a bucket that holds objects;
+dbc4627 delete_bucket refuses a bucket that holds objects; fe75a0e delete_object of a key that does not exist succeeds;
 b89afe2 ranged reads: covered for all ranges by `C18_get_refines_partial` and `C18_range_check`, the kernel cannot
 evaluate the decimal formatter of `Content-Range`) -/
 
@@ -156,6 +153,16 @@ theorem C18_fixed_delete_nonempty_bucket :
       [none, none, some .BucketNotEmpty, none, none, none, some .NoSuchBucket] ∧
     Same [.createBucket bka, .putObject bka kTU [1] none {} none, .deleteBucket bka, .deleteObject bka kTU,
       .deleteBucket bka, .headBucket bka] := by decide
+
+/-- was fs:delete-missing-key-error (the witness history of `corpus/fs.txt`): delete_object of a key that does not exist
+    succeeds on both sides — before anything was written, twice in a row after a delete — and changes nothing; in a bucket
+    that does not exist it is `NoSuchBucket` on both sides -/
+theorem C18_fixed_delete_missing_key :
+    Same [.createBucket bka, .deleteObject bka kA, .putObject bka kA [1] none {} none, .deleteObject bka kB,
+      .getObject bka kA none, .deleteObject bka kA, .deleteObject bka kA, .deleteObject [98, 107, 98] kA] ∧
+    (run H0 0 {} [.createBucket bka, .deleteObject bka kA, .putObject bka kA [1] none {} none, .deleteObject bka kB,
+      .getObject bka kA none, .deleteObject bka kA, .deleteObject bka kA, .deleteObject [98, 107, 98] kA]).2.map tagOf =
+      [none, none, none, none, none, none, none, some .NoSuchBucket] := by decide
 
 /-- was fs:suffix-range-longer-than-object / fs:suffix-range-huge-panics: the model no longer fails or panics (the answer
     itself is compared by `C18_get_refines_partial`) -/
